@@ -33,6 +33,7 @@ func init() {
 	vHarnesses["H_C08_order"] = H_C08_order
 	vHarnesses["H_C08_sort"] = H_C08_sort
 	vHarnesses["H_C08_rep"] = H_C08_rep
+	vHarnesses["H_C16_alias"] = H_C16_alias
 	vHarnesses["H_C02_pair"] = H_C02_pair
 	vHarnesses["H_C02_rep"] = H_C02_rep
 	vHarnesses["H_C10_gen"] = H_C10_gen
@@ -74,6 +75,12 @@ func H_C03_gen2(inst int) {
 func H_C04_gen(inst int) {
 	i := newFull()
 	engine.VH_C04_gen(&i.VM, inst)
+}
+
+// H_C16_alias: relational built-ins called with one variable in two argument positions.
+func H_C16_alias(inst int) {
+	i := newFull()
+	engine.VH_C16_alias(&i.VM, inst)
 }
 
 // H_C08_rep: two lists, each built in one of several representations: the order is that of the literal lists.
